@@ -656,9 +656,90 @@ class Inliner:
         keep = ast.copy_location(ast.Assign(targets=[ast.Name(id=tmp, ctx=ast.Store())], value=tail_ret.value if tail_ret.value is not None else ast.Constant(value=None), lineno=st.lineno), st)
         return prologue + pre + bind_ + st.body[:-1] + [keep] + post + [ast.copy_location(ast.Return(value=ast.Name(id=tmp, ctx=ast.Load())), tail_ret)]
 
+    def _inline_for_generator(self, st: ast.For, cls: Optional[str]) -> Optional[List[ast.stmt]]:
+        """N38  for T in self._gen(args): BODY   ->   the body of the private generator helper with every `yield V` read as `T = V ; BODY`
+        The helper yields at statement level only (`yield V` as a statement, no `yield from`, no value taken from the yield), does not
+        `return` and finishes by running off its end; BODY does not leave the loop (`break`, `return`) and has no `else`; a `continue` in
+        BODY (outside loops of its own) is allowed when every yield is the last statement of a loop body of the helper - `continue` then
+        goes on with that loop, which is what resuming the generator would do."""
+        if st.orelse or not isinstance(st.iter, ast.Call):
+            return None
+        h = self._resolve(st.iter, cls)
+        if h is None or not h.is_gen or h.is_ctx:
+            return None
+        m = h.bind(st.iter, self._receiver(st.iter, h))
+        if m is None:
+            return None
+        own = list(_walk_own(h.fn))
+        if any(isinstance(n, (ast.YieldFrom, ast.Return, ast.Global, ast.Nonlocal)) or isinstance(n, FDEFS) for n in own):
+            return None
+        yields = [n for n in own if isinstance(n, ast.Yield)]
+        ystmts = [n for n in own if isinstance(n, ast.Expr) and isinstance(n.value, ast.Yield)]
+        if not yields or len(yields) != len(ystmts):
+            return None
+
+        def leaves(stmts, in_loop):
+            """(has break/return, has continue at the level of the body)"""
+            brk = cont = False
+            for s_ in stmts:
+                if isinstance(s_, ast.Return) or (isinstance(s_, ast.Break) and not in_loop):
+                    brk = True
+                if isinstance(s_, ast.Continue) and not in_loop:
+                    cont = True
+                if isinstance(s_, FDEFS + (ast.ClassDef,)):
+                    continue
+                for field in ("body", "orelse", "finalbody"):
+                    sub = getattr(s_, field, None)
+                    if isinstance(sub, list) and sub and isinstance(sub[0], ast.stmt):
+                        b_, c_ = leaves(sub, in_loop or (isinstance(s_, (ast.For, ast.While, ast.AsyncFor)) and field == "body"))
+                        brk, cont = brk or b_, cont or c_
+                if isinstance(s_, ast.Try):
+                    for hd in s_.handlers:
+                        b_, c_ = leaves(hd.body, in_loop)
+                        brk, cont = brk or b_, cont or c_
+            return brk, cont
+
+        brk, cont = leaves(st.body, False)
+        if brk:
+            return None
+        prologue, body = self._instantiate(h, m, st)
+        # the names BODY uses must not collide with the helper's (renamed) locals: _instantiate gave those a tag of their own
+        ok = [True]
+
+        def place(stmts, loop_tail):
+            out = []
+            for k, s_ in enumerate(stmts):
+                last = k == len(stmts) - 1
+                if isinstance(s_, ast.Expr) and isinstance(s_.value, ast.Yield):
+                    if cont and not (loop_tail and last):
+                        ok[0] = False
+                    v_ = s_.value.value if s_.value.value is not None else ast.Constant(value=None)
+                    out.append(ast.copy_location(ast.Assign(targets=[copy.deepcopy(st.target)], value=v_, lineno=st.lineno), st))
+                    out.extend(copy.deepcopy(b_) for b_ in st.body)
+                    continue
+                for field in ("body", "orelse", "finalbody"):
+                    sub = getattr(s_, field, None)
+                    if isinstance(sub, list) and sub and isinstance(sub[0], ast.stmt):
+                        is_loop_body = isinstance(s_, (ast.For, ast.While, ast.AsyncFor)) and field == "body"
+                        # a yield inside an `if` that ends a loop body is followed by nothing else of that round either
+                        setattr(s_, field, place(sub, is_loop_body or (loop_tail and last and isinstance(s_, ast.If))))
+                if isinstance(s_, ast.Try):
+                    ok[0] = False
+                out.append(s_)
+            return out
+
+        new_body = place(body, False)
+        if not ok[0]:
+            return None
+        return prologue + new_body
+
     def _inline_one(self, st: ast.stmt, cls: Optional[str]) -> Optional[List[ast.stmt]]:
         if isinstance(st, ast.With):
             return self._inline_with(st, cls)
+        if isinstance(st, ast.For):
+            rep_ = self._inline_for_generator(st, cls)
+            if rep_ is not None:
+                return rep_
         hoisted = self._hoist_nested(st, cls)
         if hoisted is not None:
             return hoisted
@@ -1225,12 +1306,30 @@ def _fold_stable_aliases(fn):
             keep.append(st)
         return keep
 
+    # t__tag = v at the top level of the function, t__tag a temporary of the normaliser bound once, v a parameter that is never
+    # rebound or a local bound once by a top-level statement (straight-line code: v means the same thing wherever t__tag is read)
+    top_bound = {st.targets[0].id for st in fn.body if isinstance(st, ast.Assign) and len(st.targets) == 1 and isinstance(st.targets[0], ast.Name)}
+    for st in fn.body:
+        if isinstance(st, ast.Assign) and isinstance(st.targets[0], ast.Tuple):
+            top_bound.update(x_.id for x_ in st.targets[0].elts if isinstance(x_, ast.Name))
+    kept = []
+    for st in fn.body:
+        if isinstance(st, ast.Assign) and len(st.targets) == 1 and isinstance(st.targets[0], ast.Name) and isinstance(st.value, ast.Name):
+            t, v = st.targets[0].id, st.value.id
+            if "__" in t and binds.get(t) == 1 and t not in params and t not in nested_uses and v not in nested_uses and v not in folds \
+                    and ((v in params and binds.get(v, 0) == 0) or (binds.get(v) == 1 and v in top_bound and v not in params)):
+                folds[t] = st.value
+                continue
+        kept.append(st)
+    fn.body = kept or [ast.Pass()]
     fn.body = scan(fn.body) or [ast.Pass()]
     if folds:
         class R(ast.NodeTransformer):
             def visit_Name(self, n):
                 if n.id in folds and isinstance(n.ctx, ast.Load):
-                    return ast.copy_location(copy.deepcopy(folds[n.id]), n)
+                    rep_ = ast.copy_location(copy.deepcopy(folds[n.id]), n)
+                    # (the folded value may itself be a folded name: followed, a name stands for one value so this ends)
+                    return self.visit(rep_) if isinstance(rep_, ast.Name) and rep_.id in folds and rep_.id != n.id else rep_
                 return n
 
             def visit_FunctionDef(self, f):
@@ -2391,6 +2490,16 @@ def _objects_to_locals(module_name: str, tree: ast.Module, known: Set[str], mult
                         mem.setdefault(n.attr, "field")
         members[cname] = mem
 
+    init_only: Dict[str, bool] = {}
+    for cname, c in classes.items():
+        ok_ = True
+        for b in c.body:
+            if isinstance(b, ast.FunctionDef) and b.name != "__init__":
+                me = b.args.args[0].arg
+                if any(isinstance(n, ast.Attribute) and isinstance(n.value, ast.Name) and n.value.id == me and isinstance(n.ctx, (ast.Store, ast.Del)) for n in ast.walk(b)):
+                    ok_ = False
+        init_only[cname] = ok_
+
     def fname(cname, m):
         return f"{cname}__{m.strip('_') if m == '__init__' else m}"
 
@@ -2436,6 +2545,8 @@ def _objects_to_locals(module_name: str, tree: ast.Module, known: Set[str], mult
     for f in synth:
         inl.inline_expressions(f, None)
 
+    changed: List[str] = []
+
     def process(fn, enclosing_cls):
         binds: Dict[str, int] = {}
         for n in _walk_own(fn):
@@ -2461,7 +2572,11 @@ def _objects_to_locals(module_name: str, tree: ast.Module, known: Set[str], mult
                     if isinstance(n.ctx, ast.Store):
                         continue
                     if id(n) not in own:
-                        cands.pop(name, None)  # read inside a closure
+                        # inside a closure: only a field read of an object whose fields are set by its constructor and by nothing else
+                        # (the closure then reads what a local bound once right after the construction holds)
+                        if init_only.get(cname) and isinstance(p_, ast.Attribute) and p_.value is n and isinstance(p_.ctx, ast.Load) and members[cname].get(p_.attr) == "field":
+                            continue
+                        cands.pop(name, None)
                         break
                     if not (isinstance(p_, ast.Attribute) and p_.value is n and p_.attr in members[cname]):
                         cands.pop(name, None)
@@ -2532,7 +2647,32 @@ def _objects_to_locals(module_name: str, tree: ast.Module, known: Set[str], mult
                 return self.generic_visit(n)
 
         work = F().visit(work)
+        # a field that only ever names a value the function already has a stable name for reads as that name
+        stable = _stable_names(work)
+        fold: Dict[str, str] = {}
+        for n in _walk_own(work):
+            if isinstance(n, ast.Assign) and len(n.targets) == 1 and isinstance(n.targets[0], ast.Name) and isinstance(n.value, ast.Name) \
+                    and any(n.targets[0].id.startswith(f"{c_}__") for c_ in cands) and n.targets[0].id in stable and n.value.id in stable:
+                fold[n.targets[0].id] = n.value.id
+        if fold:
+            for n in ast.walk(work):
+                if isinstance(n, ast.Name) and n.id in fold:
+                    n.id = fold[n.id]
+
+            def drop(stmts):
+                out = []
+                for st in stmts:
+                    for field in ("body", "orelse", "finalbody"):
+                        sub = getattr(st, field, None)
+                        if isinstance(sub, list) and sub and isinstance(sub[0], ast.stmt) and not isinstance(st, FDEFS + (ast.ClassDef,)):
+                            setattr(st, field, drop(sub) or ([ast.copy_location(ast.Pass(), st)] if field == "body" else []))
+                    if isinstance(st, ast.Assign) and len(st.targets) == 1 and isinstance(st.targets[0], ast.Name) and isinstance(st.value, ast.Name) and st.value.id == st.targets[0].id:
+                        continue
+                    out.append(st)
+                return out
+            work.body = drop(work.body) or [ast.Pass()]
         fn.body = work.body
+        changed.append(fn.name)
 
     for st in tree.body:
         if isinstance(st, FDEFS):
@@ -2544,6 +2684,7 @@ def _objects_to_locals(module_name: str, tree: ast.Module, known: Set[str], mult
             for f in ast.walk(st):
                 if isinstance(f, FDEFS):
                     process(f, st.name)
+    tree._nqsa_objects_inlined = bool(changed)
     # a class nothing mentions any more is dead code
     for cname, c in classes.items():
         if cname in multiply_defined:
@@ -2988,7 +3129,7 @@ def normalise_module(module_name: str, tree: ast.Module, multiply_defined: froze
     if known_names():
         _objects_to_locals(module_name, tree, set(known_names().get(module_name, [])), multiply_defined)
     inl = Inliner(module_name, tree, multiply_defined)
-    had_helpers = bool(inl.helpers)
+    had_helpers = bool(inl.helpers) or bool(getattr(tree, "_nqsa_objects_inlined", False))
     if inl.helpers:
         tree.body = _comprehension_to_loop(tree.body, inl, None)
         # flatten helper bodies first so that their guard clauses are in canonical form
